@@ -14,6 +14,7 @@ import (
 	"fmt"
 	"math/big"
 	"net/netip"
+	"regexp"
 	"sort"
 	"strings"
 	"testing"
@@ -154,6 +155,9 @@ func c04Universes(thorough bool) *c04Universe {
 			"e2": {
 				{Labels: map[string]string{"a": "1"}, Nets: []string{"10.0.0.1/32"}, Ports: []c04Port{http("tcp", 80)}},
 				{Labels: map[string]string{}, Nets: []string{"10.0.0.2/32", "10.0.0.1/32"}, Ports: []c04Port{http("tcp", 8080), http("tcp", 80)}, Parents: []string{"p1"}},
+				// differs from variant 0 ONLY in the address, and from the next one only in the port number
+				{Labels: map[string]string{"a": "1"}, Nets: []string{"10.0.0.2/32"}, Ports: []c04Port{http("tcp", 80)}},
+				{Labels: map[string]string{"a": "1"}, Nets: []string{"10.0.0.2/32"}, Ports: []c04Port{http("tcp", 81)}},
 			},
 		},
 		netsets: []string{"n1"},
@@ -650,6 +654,31 @@ func c04Key(s *c04State) string {
 	return b.String()
 }
 
+var (
+	c04ReTime = regexp.MustCompile(`\d{4}-\d\d-\d\d \d\d:\d\d:\d\d(\.\d+)? [+-]\d{4} \w+( m=[+-][\d.]+)?`)
+	c04RePtr  = regexp.MustCompile(`0x[0-9a-f]+`)
+	c04ReMap  = regexp.MustCompile(`map\[[^\]]*\]`)
+	c04ReSp   = regexp.MustCompile(`\s+`)
+)
+
+// c04PanicLine turns a panic value into a stable one-line class: logrus Panic() panics with the
+// *Entry, whose dump contains pointers, field maps and a timestamp.
+func c04PanicLine(val string) string {
+	line := val
+	if i := strings.IndexByte(line, '\n'); i >= 0 {
+		line = line[:i]
+	}
+	line = c04ReTime.ReplaceAllString(line, "")
+	line = c04RePtr.ReplaceAllString(line, "")
+	line = c04ReMap.ReplaceAllString(line, "")
+	line = strings.NewReplacer("&{", "", "<nil>", "", "}", "").Replace(line)
+	line = strings.TrimSpace(c04ReSp.ReplaceAllString(line, " "))
+	if len(line) > 100 {
+		line = line[:100]
+	}
+	return line
+}
+
 func c04HasDup(l []string) bool {
 	for i := range l {
 		for j := i + 1; j < len(l); j++ {
@@ -710,10 +739,7 @@ func c04Spec(u *c04Universe, suppress bool, depth int, tree bool, workers int, f
 				env.apply(e)
 			}
 			last := hist[len(hist)-1]
-			line := val
-			if i := strings.IndexByte(line, '\n'); i >= 0 {
-				line = line[:i]
-			}
+			line := c04PanicLine(val)
 			// H04 shape: the endpoint / network set touched by the last event had a parent list
 			// naming one parent twice, and the index complains about its parent bookkeeping.
 			if strings.Contains(val, "discard of unknown ID") {
@@ -791,17 +817,40 @@ func TestVerif_C04(t *testing.T) {
 			c.Sample(map[string]any{"replayed": d.History})
 			return
 		}
-		c.Extra("alphabet_size", len(u.events()))
+		uq := u
+		if c.Thorough() {
+			uq = c04Universes(false)
+		}
+		noDupQ := func(e c04Ev) bool {
+			switch e.Op {
+			case "EP":
+				return !c04HasDup(uq.epVars[e.ID][e.V].Parents)
+			case "NS":
+				return !c04HasDup(uq.nsVars[e.ID][e.V].Parents)
+			}
+			return true
+		}
+		c.Extra("alphabet_size", len(uq.events()))
 		c.Sample(map[string]any{"mode": "suppress", "history": []string{"SET(S0,0)", "NS(n1,0)", "EP(e1,0)", "NSDEL(n1,0)"},
 			"meaning": "IP set S0=all(); network set n1 {10.0.0.0/24, 10.0.0.0/25} -> only the /24 is emitted; endpoint e1 10.0.0.1 is masked; deleting n1 must withdraw the /24 and expose 10.0.0.1/32"})
 		for _, suppress := range []bool{false, true} {
-			// graph mode, full universe (incl. duplicate parent lists)
-			d := c.Pick(6, 12)
-			st := hbfs.Explore(c, c04Spec(u, suppress, d, false, workers, nil, ""))
+			// graph mode, base universe (incl. duplicate parent lists); quick: depth 6 reaches every
+			// environment of the universe, thorough: run to fixpoint
+			d := c.Pick(6, 30)
+			st := hbfs.Explore(c, c04Spec(uq, suppress, d, false, workers, nil, ""))
 			c.Extra(fmt.Sprintf("fixpoint_reached_suppress_%v", suppress), st.Complete && st.Depth < d)
 			// tree mode (every history, no merging) without the duplicate-parent variants, so that the
 			// known panic class cannot stand in for anything else
-			hbfs.Explore(c, c04Spec(u, suppress, c.Pick(3, 4), true, workers, noDup, "-nodup"))
+			hbfs.Explore(c, c04Spec(uq, suppress, c.Pick(3, 4), true, workers, noDupQ, "-nodup"))
+		}
+		if c.Thorough() {
+			// larger universe (third endpoint with IPv6, second parent, 8 IP sets, an IP-set id whose
+			// content changes in place): depth-bounded graph search
+			c.Extra("alphabet_size_large", len(u.events()))
+			for _, suppress := range []bool{true, false} {
+				hbfs.Explore(c, c04Spec(u, suppress, 5, false, workers, nil, ""))
+			}
+			_ = noDup
 		}
 	})
 }
